@@ -14,7 +14,7 @@ LEVEL = "exploration"
 TECHNIQUE = "generated shadowing schemas vs. an independent scope resolver; parsed-schema identity, BYTES_LENGTH and encoded bytes"
 RULE = (
     "Units of 1-3 files (later files import earlier ones by proto name, by `as` name, occasionally by an `as` name equal to a "
-    "type name; imports also placed after the first definitions). A few HOT names are declared repeatedly: types Tiger / Panda / "
+    "type name; two files may declare the SAME proto name, an importer then holds one of them under `as`; imports also placed after the first definitions). A few HOT names are declared repeatedly: types Tiger / Panda / "
     "Koala as enums, one-field messages or aliases, every definition with a DIFFERENT width, at file scope, inside messages down "
     "to depth 3 and in imported files; constants SIZE / COUNT with different values in every file; sometimes a FIELD or a nested "
     "enum carries a hot name (wrong kind). Every field type, array element, alias element and some array capacities are slots; "
@@ -49,7 +49,7 @@ ASSUMPTIONS = [
 ]
 REQUIRED_LABELS = [
     "path:simple", "path:dotted2", "path:dotted3", "site:depth1", "site:depth2", "site:depth3", "site:alias", "site:array_element",
-    "use:capacity", "target:imported", "import:as", "import:proto_name", "import:two_hop", "target:nested_in_imported_message",
+    "use:capacity", "target:imported", "import:as", "import:proto_name", "import:two_hop", "import:same_proto_name_twice", "target:nested_in_imported_message",
     "target:depth0", "target:depth1", "target:depth2", "shadow:inner_wins", "shadow:later_inner_definition_ignored",
     "kind:enum", "kind:message", "kind:alias", "kind:const", "ambig:leaf_first_component", "ambig:scope_lacks_rest", "reject:undefined", "reject:wrongkind", "reject:defined_later",
     "reject:in_imported_file", "own_name_in_body", "obs:python", "obs:via_importer",
